@@ -7,6 +7,8 @@ from .. import bits, paths
 from ..core import call_attr, calls_in, const, dotted, is_const, kwarg, norm, slice_parts, text, walk_local
 
 EXPLANATION = [
+    'C08.bytes-of-number: no single-argument bytes() call is applied to a flag (an attribute or parameter declared bool, a comparison, a boolean expression): bytes(True) is one zero byte, not the byte 0x01.',
+    'C08.one-shot: no name bound to a generator expression or to filter() / map() / zip() / reversed() / enumerate() is read in more than one consuming position or inside a loop that evaluates it repeatedly: such an iterator is empty after its first walk.',
     'C08.response-echo: both channel classes answer a Disconnection Request by echoing the request\'s own destination_cid and source_cid (same rule as C09.response-echo): with different CIDs at the two ends the requester still finds the channel that asked, so a failed set-up ends with both ends closed.',
     'C08.poll: the receiver-ready poll carries P=1 (F=0), both bits are forwarded into the S-frame, a frame received with P=1 is answered with F=1, and a frame with F=1 cancels the sender\'s monitor timer and resumes output on every path of _update_ack_seq that does not reject the acknowledgement (also when it acknowledges nothing new): the poll/final handshake closes.',
     'C08.peer-params: the TxWindow / MaxTransmit / MPS the ERTM sender obeys are the ones unpacked from the peer\'s Configure Request (same field order as packed), forwarded by name through the factory and stored under their own names.',
@@ -524,7 +526,19 @@ def response_echo_shared(ctx):
     c09.response_echo(ctx, rule='C08.response-echo')
 
 
+def one_shot_rule(ctx):
+    from ..generic_rules import one_shot_iterators
+    one_shot_iterators(ctx, 'C08.one-shot', ['bumble.l2cap'])
+
+
+def bytes_of_number_rule(ctx):
+    from ..generic_rules import bytes_of_number
+    bytes_of_number(ctx, 'C08.bytes-of-number', ['bumble.l2cap'])
+
+
 RULES = [
+    ('C08.bytes-of-number', bytes_of_number_rule),
+    ('C08.one-shot', one_shot_rule),
     ('C08.response-echo', response_echo_shared),
     ('C08.poll', poll_final),
     ('C08.peer-params', peer_params),
